@@ -19,7 +19,7 @@ func drawN(t *rapid.T) int {
 	if rapid.IntRange(0, 9).Draw(t, "big") == 0 {
 		return rapid.SampledFrom([]int{74, 75, 76, 77, 80, 90, 100, 120, 150}).Draw(t, "nbig")
 	}
-	return vk.Dim(t, "n", 0, 40, 0, 1, 2, 10, 11, 14, 15, 16)
+	return dimN(t, "n", 40, 0, 1, 2, 10, 11, 14, 15, 16)
 }
 
 // ---- Dgebal / Dgebak -----------------------------------------------------------------
@@ -240,7 +240,7 @@ func drawGebal(t *rapid.T) kase {
 	c.J[0] = rapid.SampledFrom([]int{0, 1, 1, 2, 2, 3, 3, 3}).Draw(t, "job")
 	c.J[1] = rapid.IntRange(0, 1).Draw(t, "side")
 	c.K = rapid.IntRange(0, 6).Draw(t, "m")
-	c.N = vk.Dim(t, "n", 0, 40, 0, 1, 2, 10, 16)
+	c.N = dimN(t, "n", 40, 0, 1, 2, 10, 16)
 	c.Pad = drawPads(t, 2)
 	c.Cls = rapid.SampledFrom([]int{clsGauss, clsGraded, clsGraded, clsCompanion, clsJordan, clsComplexPairs, clsHessenberg, clsTriangular, clsDiagonal, clsZero, clsPermTri, clsPermTri, clsPermTri, clsSparse, clsSparse, clsSparse}).Draw(t, "cls")
 	c.Sc = rapid.SampledFrom([]int{0, 0, 0, 60, -60, 500, -500}).Draw(t, "sc")
@@ -438,7 +438,7 @@ func drawGehrd(t *rapid.T) kase {
 	c.J[0] = rapid.IntRange(0, 2).Draw(t, "routine") / 2
 	c.J[1] = rapid.IntRange(0, 3).Draw(t, "ormhr")
 	c.K = rapid.IntRange(0, 12).Draw(t, "k")
-	c.N = vk.Dim(t, "n", 0, 40, dimBoundaries...)
+	c.N = dimN(t, "n", 40, dimBoundaries...)
 	if rapid.IntRange(0, 7).Draw(t, "big") == 0 {
 		c.N = rapid.IntRange(41, 170).Draw(t, "nbig") // blocked Dgehrd needs ihi-ilo+1 > nx = 128
 	}
@@ -1133,7 +1133,7 @@ func drawTrevc3(t *rapid.T) kase {
 	c := kase{R: "Dtrevc3"}
 	c.J[0] = rapid.IntRange(0, 2).Draw(t, "side")
 	c.J[1] = rapid.IntRange(0, 2).Draw(t, "howmny")
-	c.N = vk.Dim(t, "n", 0, 40, 0, 1, 2, 10, 16)
+	c.N = dimN(t, "n", 40, 0, 1, 2, 10, 16)
 	if rapid.IntRange(0, 14).Draw(t, "big") == 0 {
 		c.N = rapid.IntRange(41, 140).Draw(t, "nbig")
 	}
@@ -1305,7 +1305,7 @@ func drawTrexc(t *rapid.T) kase {
 	c := kase{R: "Dtrexc"}
 	c.J[0] = rapid.IntRange(0, 2).Draw(t, "routine") / 2
 	c.J[1] = rapid.IntRange(0, 1).Draw(t, "q")
-	c.N = vk.Dim(t, "n", 0, 30, 0, 1, 2, 3, 4)
+	c.N = dimN(t, "n", 30, 0, 1, 2, 5)
 	c.Ilo = rapid.IntRange(0, 1000).Draw(t, "ifst")
 	c.Ihi = rapid.IntRange(0, 1000).Draw(t, "ilst")
 	c.Pad = drawPads(t, 2)
